@@ -509,6 +509,9 @@ func checkParamResolution(c *Check, w *World, tb *TB, rule string, entry *ssa.Fu
 }
 
 func runC01(c *Check, w *World) {
+	if w.Cfg.Name == CfgNative.Name {
+		ruleJSExportsDirect(c, "R01.JS", "generateHOTP")
+	}
 	tb := NewTB(w)
 	ef := NewEffects(tb)
 	iv := newIVWithTables(w, tb, ef)
